@@ -805,13 +805,23 @@ func init() {
 			if err != nil {
 				return errClass(err)
 			}
+			scribble(val) // the caller's buffer is the caller's again as soon as Put has returned (C18)
 			if err := p.Exec(ctx); err != nil {
 				return errClass(err)
 			}
 			return errClass(fut.Result())
 		}
-		return errClass(d.Put(ctx, key, val, o.api()...))
+		err = d.Put(ctx, key, val, o.api()...)
+		scribble(val)
+		return errClass(err)
 	}))
+	// hxPoke: the hex text of bytes handed back by a client call, after which the caller writes all over them:
+	// returned values are private snapshots (C18)
+	hxPoke := func(b []byte) string {
+		t := hx(b)
+		scribble(b)
+		return t
+	}
 	doGet := func(m *member, path, name string, a []string) string {
 		key := string(unhx(a[0]))
 		ctx, cancel := opCtx()
@@ -844,7 +854,7 @@ func init() {
 			if err != nil {
 				return errClass(err)
 			}
-			return hx(b)
+			return hxPoke(b)
 		}
 		gr, err := d.Get(ctx, key)
 		if err != nil {
@@ -854,7 +864,7 @@ func init() {
 		if err != nil {
 			return errClass(err)
 		}
-		return hx(b)
+		return hxPoke(b)
 	}
 	register("c.get", clusterOp(doGet))
 	register("c.getf", clusterOp(doGet)) // a key the model does not mirror (float counters)
@@ -989,7 +999,7 @@ func init() {
 		if err != nil {
 			return errClass(err)
 		}
-		return hx(b)
+		return hxPoke(b)
 	}
 	register("c.getput", clusterOp(doGetPut))
 	doIncDec := func(opname string) func(m *member, path, name string, a []string) string {
@@ -1421,10 +1431,12 @@ func init() {
 			key := string(unhx(f[1]))
 			switch f[0] {
 			case "put":
-				fp, err := p.Put(ctx, key, unhx(f[2]))
+				v := unhx(f[2])
+				fp, err := p.Put(ctx, key, v)
 				if err != nil {
 					return errClass(err)
 				}
+				scribble(v) // buffers passed to a queued Put / GetPut are reused before Exec (C18)
 				futs = append(futs, func() string { return errClass(fp.Result()) })
 			case "get":
 				fg := p.Get(ctx, key)
@@ -1440,10 +1452,12 @@ func init() {
 					return hx(b)
 				})
 			case "getput":
-				fg, err := p.GetPut(ctx, key, unhx(f[2]))
+				v := unhx(f[2])
+				fg, err := p.GetPut(ctx, key, v)
 				if err != nil {
 					return errClass(err)
 				}
+				scribble(v)
 				futs = append(futs, func() string {
 					gr, err := fg.Result()
 					if err != nil {
